@@ -22,6 +22,10 @@ m = {
     "notes": "See DESIGN.md. KNOWN_FINDINGS.txt lists recorded defects (known:) and repaired ones (fixed:).",
     "not_applicable": NOT_APPLICABLE,
 }
+allids = [json.loads(l)["id"] for l in open(os.path.join(os.path.dirname(os.path.abspath(__file__)), "properties.jsonl"))]
+for pid in allids:
+    if pid not in CONFIG and not any(n["property_id"] == pid for n in m["not_applicable"]):
+        m["not_applicable"].append({"property_id": pid, "reason": "not claimed in this commit: its generated-input check (DESIGN.md section 4) is not built/validated yet; the technique does apply"})
 for pid in sorted(CONFIG):
     c = CONFIG[pid]
     t = TEXTS[pid]
